@@ -47,9 +47,18 @@ def rejections(model, scope):
                 continue
             keys = set()
             if cond is not None:
-                for x in ast.walk(cond):
-                    if isinstance(x, ast.Subscript) and isinstance(x.slice, ast.Constant) and isinstance(x.slice.value, str):
-                        keys.add(x.slice.value)
+                # parsed fields the condition reads: directly, or through locals that were assigned from them
+                seen, todo = set(), [cond]
+                while todo:
+                    e = todo.pop()
+                    for x in ast.walk(e):
+                        if isinstance(x, ast.Subscript) and isinstance(x.slice, ast.Constant) and isinstance(x.slice.value, str):
+                            keys.add(x.slice.value)
+                        elif isinstance(x, ast.Name) and x.id not in seen:
+                            seen.add(x.id)
+                            for d in ast.walk(f.node):
+                                if isinstance(d, ast.Assign) and len(d.targets) == 1 and isinstance(d.targets[0], ast.Name) and d.targets[0].id == x.id:
+                                    todo.append(d.value)
             out.setdefault(f.construct, []).append(('%s[%s]' % (exc, ','.join(sorted(keys))), n))
     return out
 
